@@ -390,6 +390,11 @@ M("C04", "grow-filter-strict", INI, "        alternatives = [\n            x for
   "        alternatives = [\n            x for x in alternatives if self.grammar.get_distance_to_terminal(x) < (self.max_depth - ctx.depth)\n        ]\n        return self.random.choice(alternatives)\n\n    def validate", "C04.R1")
 M("C04", "refined-list-elements-one-level-down", INI, "context=LocalSynthesisContext(context.depth, context.nodes, context.expansions + 1, dependent_vals),",
   "context=LocalSynthesisContext(context.depth + int(is_generic_list(base_type)), context.nodes, context.expansions + 1, dependent_vals),", "C04.R1")
+M("C03", "dsge-read-indexes-positions-table", DSGE, "        position = self.positions.get(ty, 0)\n", "        position = self.positions[ty]\n", "C03.R6")
+M("C03", "twin-dsge-read-setdefault", DSGE, "        position = self.positions.get(ty, 0)\n        v = self.genotype.get(ty, position)\n        self.positions[ty] = position + 1\n",
+  "        position = self.positions.setdefault(ty, 0)\n        v = self.genotype.get(ty, position)\n        self.positions[ty] += 1\n", "", expect="silent")
+M("C04", "grow-filter-strict", INI, "            x for x in alternatives if self.grammar.get_distance_to_terminal(x) <= (self.max_depth - ctx.depth)\n        ]\n        return self.random.choice(alternatives)",
+  "            x for x in alternatives if self.grammar.get_distance_to_terminal(x) < (self.max_depth - ctx.depth)\n        ] or alternatives[:1]\n        return self.random.choice(alternatives)", "C04.R6")
 M("C03", "refined-list-elements-one-level-down", INI, "context=LocalSynthesisContext(context.depth, context.nodes, context.expansions + 1, dependent_vals),",
   "context=LocalSynthesisContext(context.depth + int(is_generic_list(base_type)), context.nodes, context.expansions + 1, dependent_vals),", "C03.R1")
 M("C04", "twin-refined-context-built-once", INI, "        def recurse(typ: type, **kwargs):\n", "        rctx_depth = context.depth\n\n        def recurse(typ: type, **kwargs):\n", "", expect="silent",
